@@ -15,7 +15,7 @@ use serde::{Deserialize, Serialize};
 
 use super::{
     Net, NetPlan, Sock, SockCfg, WirePredicates, WireRec, addr,
-    app::{EndpointLog, ROp, SharedLog, Stream, WOp, run_reader, run_writer},
+    app::{EndpointLog, ROp, SharedLog, Stream, WOp, run_reader, run_writer, script_chan},
     new_socket, run_sim, take_wedge,
 };
 
@@ -196,8 +196,8 @@ pub fn run_with(sc: &Scenario, trace: bool, setup: impl FnOnce(&Net)) -> RunResu
                     };
                     // acceptor writes direction 1, reads direction 0
                     let tag = |s: &'static str| if trace { Some(s) } else { None };
-                    spawn_h(&sh2, run_writer(w, plan.b_w.clone(), Stream::new(plan.key, 1), log.clone(), t0, tag("B.w")));
-                    spawn_h(&sh2, run_reader(r, plan.b_r.clone(), Stream::new(plan.key, 0), log, t0, tag("B.r")));
+                    spawn_h(&sh2, run_writer(w, script_chan(plan.b_w.clone()), Stream::new(plan.key, 1), log.clone(), t0, tag("B.w"), Default::default()));
+                    spawn_h(&sh2, run_reader(r, script_chan(plan.b_r.clone()), Stream::new(plan.key, 0), log, t0, tag("B.r"), Default::default()));
                 }
             });
         }
@@ -221,8 +221,8 @@ pub fn run_with(sc: &Scenario, trace: bool, setup: impl FnOnce(&Net)) -> RunResu
                             e.0.clone()
                         };
                         let tag = |s: &'static str| if trace { Some(s) } else { None };
-                        spawn_h(&sh2, run_writer(w, plan.a_w.clone(), Stream::new(plan.key, 0), log.clone(), t0, tag("A.w")));
-                        spawn_h(&sh2, run_reader(r, plan.a_r.clone(), Stream::new(plan.key, 1), log, t0, tag("A.r")));
+                        spawn_h(&sh2, run_writer(w, script_chan(plan.a_w.clone()), Stream::new(plan.key, 0), log.clone(), t0, tag("A.w"), Default::default()));
+                        spawn_h(&sh2, run_reader(r, script_chan(plan.a_r.clone()), Stream::new(plan.key, 1), log, t0, tag("A.r"), Default::default()));
                     }
                     Err(e) => {
                         sh2.conn_meta.lock().entry(ci).or_default().0 = Some(e.to_string());
